@@ -61,6 +61,9 @@ type Net struct {
 	Latency time.Duration
 	// Sent counts messages by kind (evidence).
 	Sent map[string]int
+	// OnServed, when set, observes every request that was served by a node
+	// (after the handler returned).
+	OnServed func(m *Msg)
 }
 
 func New(sc *sim.Sched, r *sim.Run) *Net {
@@ -167,6 +170,10 @@ func (t *rt) RoundTrip(req *http.Request) (*http.Response, error) {
 		return rec
 	}
 	rec := serve()
+	m.Status = rec.Code
+	if n.OnServed != nil {
+		n.OnServed(m)
+	}
 	if out == Duplicate {
 		n.R.Fault("msg_dup")
 		serve()
